@@ -79,6 +79,7 @@ T = [
 ("C03","fix: O_APPEND, O_CREATE and O_TRUNC were taken for write access","OpenFile(O_RDONLY|O_APPEND) and OpenFile(O_RDONLY|O_CREATE) of an existing file were refused (EACCES) to a user who may read but not write it, O_RDONLY|O_APPEND of a directory answered EISDIR, and a handle opened O_RDONLY together with O_APPEND, O_CREATE or O_TRUNC accepted Write, WriteAt and Truncate: ToOpenMode turned those flags into write access (were KF-C02-002 and KF-C01-011)"),
 ("C02","fix: a piece of a directory listing shared its spare capacity","ReadDir(n)/Readdirnames(n) with n > 0 (MemFS and OrefaFS handles) returned sub-slices of the listing kept for the next pieces, with spare capacity: appending to a returned piece overwrote the names delivered by the next call (os.File: a fresh slice per call)"),
 ("C07","fix: File.Chdir made the name the directory was opened with","File.Chdir on a directory handle opened with a relative name stored that relative name as the current directory (Getwd returned \"b\"); on OrefaFS the next Link, Rename, Stat ... on \".\" or \"..\" panicked in SplitAbs (slice bounds out of range)"),
+("C03","fix: Rename of an entry onto itself asked for write permission","MemFS.Rename(x, x) — and Rename between two hard links of one file — by a user who may search but not write the directory answered EACCES (EPERM in a sticky directory of somebody else); rename(2) returns 0 before any permission check"),
 ]
 log = subprocess.check_output(['git','-C','/repo','log','--format=%h %s','adfd2e3..HEAD']).decode().strip().split('\n')
 subj = {}
